@@ -182,9 +182,17 @@ func defaultStreamConvertPair[T any]() streamConvertPair {
 				}
 				return nil, err
 			}
+			if any(value) == nil {
+				// one chunk that is the nil value of an interface chunk type: not the same
+				// as no chunk at all, which is what nil stands for
+				return nilChunk{}, nil
+			}
 			return value, nil
 		},
 		restoreStream: func(a any) (streamReader, error) {
+			if _, ok := a.(nilChunk); ok {
+				return packStreamReader(schema.StreamReaderFromArray([]T{t})), nil
+			}
 			if a == nil {
 				return packStreamReader(schema.StreamReaderFromArray([]T{})), nil
 			}
